@@ -167,10 +167,10 @@ theorem readOne_skip (cfg : Cfg) (s : State) (rd : Read) (hm : s.find rd.uid = n
 
 /-! ## `splitRd` -/
 
-theorem splitRd_noRd : ∀ (E : List Ev), (∀ u, Ev.rd u ∉ E) → Spec.splitRd E = (E, [])
+theorem splitRd_none : ∀ (E : List Ev), (∀ u, Ev.rd u ∉ E) → Spec.splitRd E = (E, [])
   | [], _ => rfl
   | e :: rest, h => by
-    have ih := splitRd_noRd rest (fun u hu => h u (List.mem_cons_of_mem _ hu))
+    have ih := splitRd_none rest (fun u hu => h u (List.mem_cons_of_mem _ hu))
     cases e with
     | rd u => exact absurd (List.mem_cons_self) (h u)
     | send _ _ _ => simp only [Spec.splitRd, ih]
@@ -178,7 +178,7 @@ theorem splitRd_noRd : ∀ (E : List Ev), (∀ u, Ev.rd u ∉ E) → Spec.splitR
     | wfail _ => simp only [Spec.splitRd, ih]
     | close _ => simp only [Spec.splitRd, ih]
 
-theorem splitRd_rd (u : Nat) (E : List Ev) :
+theorem splitRd_cons (u : Nat) (E : List Ev) :
     Spec.splitRd (Ev.rd u :: E) = ([], (u, (Spec.splitRd E).1) :: (Spec.splitRd E).2) := by
   simp only [Spec.splitRd]
 
@@ -342,7 +342,7 @@ theorem readAll_go : ∀ (reads : List Read) (a : A) (s sQ : State) (E : List Ev
       · -- the last frame handled in this round: the continuation's events belong to its segment
         rw [h2] at q
         have hsplit : Spec.splitRd E = ([], [(rd.uid, E1 ++ (E2a ++ E2b))]) := by
-          rw [hE, List.cons_append, splitRd_rd, splitRd_noRd (E1 ++ (E2a ++ E2b))]
+          rw [hE, List.cons_append, splitRd_cons, splitRd_none (E1 ++ (E2a ++ E2b))]
           intro u hu
           rcases List.mem_append.mp hu with h | h
           · exact hno1 u h
@@ -369,7 +369,7 @@ theorem readAll_go : ∀ (reads : List Read) (a : A) (s sQ : State) (E : List Ev
           rw [go_take cfg a rd rest _ [] fuel am ham, hgo]
           exact hseg.2 p hp (errN _ p hp hn)
       · have hsplit : Spec.splitRd E = ([], (rd.uid, E1) :: (Spec.splitRd (E2a ++ E2b)).2) := by
-          rw [hE, List.cons_append, splitRd_rd, splitRd_append E1 _ hno1, h1]; simp
+          rw [hE, List.cons_append, splitRd_cons, splitRd_append E1 _ hno1, h1]; simp
         rw [hsplit]
         refine ⟨rfl, by simp, ?_, ?_⟩
         · rw [go_take cfg a rd rest E1 _ fuel am ham]; exact h3
@@ -388,13 +388,13 @@ def envA (a : A) (r : Round) : A :=
              (fun fl (p : Nat × Option FailMode) => setFail fl p.1 p.2) a.fail }
 
 /-- clock and failure environment -/
-theorem sim_env {cfg : Cfg} {a : A} {s : State} (hs : Sim cfg a s) (r : Round) : Sim cfg (envA a r) (envStep s r) := by
+theorem sim_env {cfg : Cfg} {a : A} {s : State} (hs : SimM cfg a s) (r : Round) : SimM cfg (envA a r) (envStep s r) := by
   unfold envStep envA
   exact ⟨hs.uids, hs.nacc, by show _ = _; rw [hs.nacc, hs.fail], hs.buf, hs.live, hs.mods, hs.w, hs.logIn, hs.logOut,
-    hs.logConn, hs.logNodup, hs.logBound, hs.idxIn, hs.idxPos, minv_same hs.minv rfl rfl⟩
+    hs.logConn, hs.logNodup, hs.logBound, hs.idxIn, hs.idxPos, minvOn_same hs.minv rfl rfl⟩
 
 /-- the connections the Spec considers alive are the table entries -/
-theorem liveList_contains {cfg : Cfg} {a : A} {s : State} (hs : Sim cfg a s) (u : Nat) (hu : u ≠ 0) :
+theorem liveList_contains {cfg : Cfg} {a : A} {s : State} (hs : SimM cfg a s) (u : Nat) (hu : u ≠ 0) :
     ((a.mods.filter (·.alive)).map (·.uid)).contains u = (s.find u).isSome := by
   have hnd := uids_nodup hs.uids
   have h1 : ((a.mods.filter (·.alive)).map (·.uid)).contains u = true ↔ (a.live u).isSome = true := by
@@ -427,9 +427,9 @@ theorem aget_none_of_fresh {a : A} {n : Nat} (h : a.mods.map (·.uid) = (List.ra
     omega
 
 /-- `accept()`: a fresh entry on both sides (and the writable set sampled afterwards) -/
-theorem sim_accept {cfg : Cfg} {a : A} {s : State} (hs : Sim cfg a s) (wA wM : List Nat)
+theorem sim_accept {cfg : Cfg} {a : A} {s : State} (hs : SimM cfg a s) (wA wM : List Nat)
     (hw : ∀ v, (v = a.nAccepted + 1 ∨ (a.live v).isSome) → (v ∈ wA ↔ v ∈ wM)) :
-    Sim cfg { a with nAccepted := a.nAccepted + 1, mods := a.mods ++ [{ uid := a.nAccepted + 1 }], w := wA }
+    SimM cfg { a with nAccepted := a.nAccepted + 1, mods := a.mods ++ [{ uid := a.nAccepted + 1 }], w := wA }
       { s with nextUid := s.nextUid + 1, mods := s.mods ++ [{ uid := s.nextUid + 1 }], wlist := wM } := by
   have hn := hs.nacc
   have hgetA : ∀ v, ({ a with nAccepted := a.nAccepted + 1, mods := a.mods ++ [{ uid := a.nAccepted + 1 }], w := wA } : A).get v =
@@ -539,10 +539,10 @@ theorem sim_accept {cfg : Cfg} {a : A} {s : State} (hs : Sim cfg a s) (wA wM : L
     · exact hs.logConn v m h1 h2
 
 /-- the writable set is sampled again -/
-theorem sim_setW {cfg : Cfg} {a : A} {s : State} (hs : Sim cfg a s) (wA wM : List Nat)
-    (hw : ∀ v, (a.live v).isSome → (v ∈ wA ↔ v ∈ wM)) : Sim cfg { a with w := wA } { s with wlist := wM } :=
+theorem sim_setW {cfg : Cfg} {a : A} {s : State} (hs : SimM cfg a s) (wA wM : List Nat)
+    (hw : ∀ v, (a.live v).isSome → (v ∈ wA ↔ v ∈ wM)) : SimM cfg { a with w := wA } { s with wlist := wM } :=
   ⟨hs.uids, hs.nacc, hs.fail, hs.buf, hs.live, hs.mods, hw, hs.logIn, hs.logOut, hs.logConn, hs.logNodup, hs.logBound,
-   hs.idxIn, hs.idxPos, minv_same hs.minv rfl rfl⟩
+   hs.idxIn, hs.idxPos, minvOn_same hs.minv rfl rfl⟩
 
 /-! ## one round, both sides in the same shape -/
 
@@ -614,7 +614,7 @@ def roundRest (cfg : Cfg) (aP : A) (wNew : List Nat) (reads : List Read) (pre : 
 
 theorem applyDepartures_withW (a : A) (w : List Nat) (evs : List Ev) :
     Spec.applyDepartures ({ a with w := w } : A) evs = ({ Spec.applyDepartures a evs with w := w } : A) := by
-  rw [Spec.applyDepartures_eq, Spec.applyDepartures_eq]
+  rw [Spec.applyDepartures_map, Spec.applyDepartures_map]
 
 theorem coreExt_withW {T : List String} {a b : A} (h : Spec.CoreExt T a b) (w : List Nat) :
     Spec.CoreExt T ({ a with w := w } : A) ({ b with w := w } : A) :=
@@ -708,7 +708,7 @@ theorem applyDepartures_accept (a : A) (e : List Ev) (wA : List Nat) (h : (Spec.
       { Spec.applyDepartures a e with
         nAccepted := (Spec.applyDepartures a e).nAccepted + 1,
         mods := (Spec.applyDepartures a e).mods ++ [{ uid := (Spec.applyDepartures a e).nAccepted + 1 }], w := wA } := by
-  rw [Spec.applyDepartures_eq, Spec.applyDepartures_eq]
+  rw [Spec.applyDepartures_map, Spec.applyDepartures_map]
   simp only [List.map_append, List.map_cons, List.map_nil]
   have : Spec.killIn (Spec.closes e) ({ uid := a.nAccepted + 1 } : AMod) = { uid := a.nAccepted + 1 } := by
     unfold Spec.killIn; simp only [h, Bool.false_eq_true, if_false]
@@ -723,7 +723,7 @@ connections) and the sampling of the writable set, the Spec's state — with the
 applied — simulates the model's. -/
 theorem pre_ok {a : A} {s : State} (inv : Inv cfg a s) (r : Round) (hwf : ∀ rd ∈ r.reads, rd.uid ≠ 0) :
     ∃ eAcc, (preS cfg s r).out = s.out ++ eAcc ∧ (∀ u, Ev.rd u ∉ eAcc) ∧
-      Sim cfg (Spec.applyDepartures (preA a r) eAcc) (preS cfg s r) ∧ Top cfg (preS cfg s r) ∧ J (preS cfg s r) ∧
+      SimM cfg (Spec.applyDepartures (preA a r) eAcc) (preS cfg s r) ∧ Top cfg (preS cfg s r) ∧ J (preS cfg s r) ∧
       preReads a r = readsS s r ∧ (preA a r).errs = a.errs := by
   have hs1 := sim_env inv.sim r
   have t1 : Top cfg (envStep s r) := top_same ok hfuel inv.top _ rfl rfl rfl
@@ -871,7 +871,7 @@ the new writable set) that the abstract state, with the *old* writable set and t
 simulates; and they meet the departure facts relative to that state. -/
 theorem pre_old (hall : OrdAll cfg) {a : A} {s : State} (inv : Inv cfg a s) (r : Round) (eAcc : List Ev)
     (hPout : (preS cfg s r).out = s.out ++ eAcc) :
-    ∃ s1' : State, Sim cfg (Spec.applyDepartures (envA a r) eAcc) s1' ∧ AllOpen s1' ∧ J s1' ∧ T s1' ∧
+    ∃ s1' : State, SimM cfg (Spec.applyDepartures (envA a r) eAcc) s1' ∧ AllOpen s1' ∧ J s1' ∧ T s1' ∧
       s1'.out = s.out ++ eAcc ∧ DepE cfg none none s1' eAcc := by
   have hs1 := sim_env inv.sim r
   have ta1 : TA cfg s (envStep s r) := by unfold envStep; exact ta_same ok hmt hord hfuel inv.top _ rfl rfl rfl rfl rfl
@@ -916,7 +916,7 @@ include ok hfuel hperm hmt
 
 omit ok hfuel hperm hmt in
 /-- the connections the Spec may count as observers of the accept branch were simulated before it -/
-theorem live_old {cfg : Cfg} {a1 : A} {s1' : State} (e eAll : List Ev) (hs : Sim cfg (Spec.applyDepartures a1 e) s1')
+theorem live_old {cfg : Cfg} {a1 : A} {s1' : State} (e eAll : List Ev) (hs : SimM cfg (Spec.applyDepartures a1 e) s1')
     (hsub : ∀ v, Ev.close v ∈ e → Ev.close v ∈ eAll) (acc : Bool) (o : AMod)
     (ho : o ∈ (if acc then ({ a1 with nAccepted := a1.nAccepted + 1, mods := a1.mods ++ [{ uid := a1.nAccepted + 1 }] } : A)
       else a1).mods) (hal : o.alive = true) (hsb : Spec.subscribed o cfg.mtClosed = true)
@@ -1013,18 +1013,18 @@ theorem round_ok {a : A} {s : State} (inv : Inv cfg a s) (r : Round) (hwf : Roun
       (E1 ++ E2) (reads.length + (Spec.splitRd (E1 ++ E2)).2.length + 1) inv0 hwf' (by omega) q hE with
       ⟨hnoE, hid, hskip⟩ | ⟨hp1, hp2, hp3, hp4⟩
   · -- no frame was read in this round: the whole round is one stretch
-    have hs2 : Spec.splitRd (E1 ++ E2) = (E1 ++ E2, []) := splitRd_noRd _ hnoE
+    have hs2 : Spec.splitRd (E1 ++ E2) = (E1 ++ E2, []) := splitRd_none _ hnoE
     rw [hsplit, hs2, ← hevs]
     simp only [List.length_nil, Nat.add_zero]
     rw [preSt_nil]
     generalize hwP : (preAcc a r).w.filter ((preW a r).contains ·) = wP
     obtain ⟨X, hX, hgs⟩ := goStart_ext cfg ({ preAcc a r with w := wP } : A) (preW a r) evs
     have hX' : Spec.CoreExt ("C07" :: others) ({ preAcc a r with w := preW a r } : A) X := hX
-    have hsimA : Sim cfg (Spec.applyDepartures ({ preAcc a r with w := preW a r } : A) evs) (ticks cfg (readAll cfg reads sP)) := by
+    have hsimA : SimM cfg (Spec.applyDepartures ({ preAcc a r with w := preW a r } : A) evs) (ticks cfg (readAll cfg reads sP)) := by
       rw [hevs, ← applyDepartures_append]
       have hn : Nest sP (ticks cfg (readAll cfg reads sP)) := by rw [hid]; exact ticks_nest cfg sP
       exact sim_quiet hsP tP.aopen q.top.aopen hn q.j (E1 ++ E2) hE
-    have hsimT : Sim cfg (goStart cfg ({ preAcc a r with w := wP } : A) (preW a r) evs) (ticks cfg (readAll cfg reads sP)) := by
+    have hsimT : SimM cfg (goStart cfg ({ preAcc a r with w := wP } : A) (preW a r) evs) (ticks cfg (readAll cfg reads sP)) := by
       rw [hgs]; exact sim_coreExt hsimA (Spec.applyDepartures_coreExt hX' _)
     have hdead : ∀ x ∈ reads, (goStart cfg ({ preAcc a r with w := wP } : A) (preW a r) evs).live x.uid = none := by
       intro x hx
